@@ -223,6 +223,62 @@ def r2b_param_condition_agrees(ctx):
                     key='empty-params-tuple')
 
 
+def r4_preview_reads_what_execution_reads(ctx):
+    """Execution runs the SQL that _build_batches computed per batch, in
+    graph order, against the signature / database state left by the batches
+    before it.  A preview that prints each task's own `task.sql` - computed
+    once in prepare(), per task, against a clone of the stored state, in
+    queue order - shows different statements whenever tasks interact: a
+    foreign key to a primary key another app renames in the same run, an
+    AFTER_EVOLUTIONS order, evolutions of one app split around a migration
+    (two rebuilds executed, one previewed).  Both sides must read the same
+    variable."""
+    ctx.rule('R-C14.4')
+    p = ctx.program
+    from ..flow import ReachingDefs
+    ex = p.func('evolve.evolve_app_task', 'EvolveAppTask.execute_tasks')
+    g = ctx.cfg(ex)
+    rd = ReachingDefs(g, ex.params)
+    exec_src = set()
+    for n in g.nodes:
+        for c in n.calls():
+            if call_name(c) == 'execute' and kwarg(c, 'sql') is not None:
+                for _, e in rd.origins(n, kwarg(c, 'sql')):
+                    txt = unparse(e)
+                    if 'batch' in txt or 'task_info' in txt:
+                        exec_src.add('batches')
+                    if txt.endswith('.sql') and 'task' in txt:
+                        exec_src.add('task.sql')
+    ctx.floor('sources of executed evolution SQL', len(exec_src), 1)
+    pv = p.func('management.commands.evolve', 'Command._display_compiled_sql')
+    pg = ctx.cfg(pv)
+    prd = ReachingDefs(pg, pv.params)
+    prev_src = set()
+    for n in pg.nodes:
+        for c in n.calls():
+            if call_name(c) == 'run_sql' and kwarg(c, 'capture') is not None:
+                arg = c.args[0] if c.args else kwarg(c, 'sql')
+                for _, e in prd.origins(n, arg):
+                    txt = unparse(e)
+                    if 'batch' in txt or 'iter_sql' in txt or \
+                            'iter_tasks_sql' in txt:
+                        prev_src.add('batches')
+                    if txt.endswith('.sql') and 'task' in txt:
+                        prev_src.add('task.sql')
+    ctx.floor('sources of previewed SQL', len(prev_src), 1)
+    if prev_src == exec_src:
+        ctx.ok(pv, 'the preview prints the SQL execution runs (%s)' %
+               ', '.join(sorted(prev_src)))
+    else:
+        ctx.finding(pv, None, 'the preview prints %s while execution runs the '
+                    'SQL of %s: the statements differ whenever tasks '
+                    'interact (cross-app state, dependency order, evolutions '
+                    'split over two batches)' % (
+                        ' / '.join(sorted(prev_src)),
+                        ' / '.join(sorted(exec_src))),
+                    key='preview-source-differs')
+
+
 def _task_attrs_into_run_sql(f, capture_only):
     """Attributes of loop/local objects that reach run_sql(...) in f."""
     out = []
@@ -415,6 +471,7 @@ def run(ctx):
     r2_capture_execute(ctx)
     r2b_param_condition_agrees(ctx)
     r3_preview_classes(ctx)
+    r4_preview_reads_what_execution_reads(ctx)
 
 
 def run_thorough(ctx):
